@@ -512,8 +512,18 @@ def oracle(ctx, hints=()):
         k0 = kind.split(':')[0]
         stats['kinds'][k0] = stats['kinds'].get(k0, 0) + 1
         key = tuple(round(float(x), 9) for x in c)
+        # a third of the cells are first reduced with another search range: the answer for the default range must not depend on it
+        pre = ctx.rng.choice([1, 2, 5]) if ctx.rng.random() < 0.34 else None
         for mn, m in _mods():
+            if pre is not None:
+                try:
+                    m.reduce_cell([float(x) for x in c], pre)
+                except Exception:
+                    pass
+                stats['preceded_by_other_uvw'] = stats.get('preceded_by_other_uvw', 0) + 1
             st, v = check_cell(mn, m, c, stats)
+            if v is not None and pre is not None:
+                v['preceded_by'] = {'call': 'reduce_cell(cell, uvw=%d)' % pre, 'uvw': pre}
             stats['status'][st] = stats['status'].get(st, 0) + 1
             if st.startswith('skip'):
                 continue
@@ -551,6 +561,11 @@ def replay(payload):
         print('replay: broken obligation, no input stored:', payload.get('broken'))
         return 1
     mn = 'tools' if v['fn'].startswith('tools') else 'laue'
+    if v.get('preceded_by'):
+        try:
+            dict(_mods())[mn].reduce_cell([float(x) for x in v['cell']], v['preceded_by']['uvw'])
+        except Exception:
+            pass
     st, res = check_cell(mn, dict(_mods())[mn], v['cell'])
     print('replay C18 %s.reduce_cell(%s) -> %s' % (mn, v['cell'], st))
     if res is not None:
